@@ -7,7 +7,24 @@ packages stubbed) on every (base, diff) and (base, decisions) the Python side pr
 splitter model is compared with the real TS splitter; the TS action list is extracted by regex."""
 import copy, glob, json, os, re, subprocess
 import vlib, gen_nb
-from vlib import enc, dec, canon, plain
+from vlib import enc, dec, plain
+
+
+def jsnum(v):
+    """JavaScript has one number type: a value that went through the browser comes back without the distinction between 1 and 1.0
+    (JSON.stringify(1.0) is "1"), and as JSON documents the two are the same number. Comparisons with the TypeScript side
+    therefore identify integral floats with integers (booleans stay booleans)."""
+    if isinstance(v, float) and v.is_integer() and abs(v) < 2 ** 53:
+        return int(v)
+    if isinstance(v, dict):
+        return {k: jsnum(x) for k, x in v.items()}
+    if isinstance(v, (list, tuple)):
+        return [jsnum(x) for x in v]
+    return v
+
+
+def canon(v):
+    return vlib.canon(jsnum(v))
 from checks import mergelib, c01
 
 THEOREMS = ['Nbdime.C15_same_split', 'Nbdime.join_splitLines', 'Nbdime.C15_vocab_refuted', 'Nbdime.C15_split_refuted']
